@@ -41,6 +41,7 @@ type c11Stats struct {
 	Snapshots      int               `json:"snapshots"`
 	OpsDone        int               `json:"ops_done"`
 	OpsAborted     int               `json:"ops_aborted"`
+	OpsOverBudget  int               `json:"ops_over_yield_budget"`
 	OpsCompared    int               `json:"ops_compared"`
 	OverBudget     int               `json:"runs_over_budget"`
 	ColdRuns       int               `json:"cold_runs"`
@@ -226,6 +227,7 @@ func aggregateC11(o options, stats []c11Stats, wall time.Duration) map[string]in
 		tot.Snapshots += st.Snapshots
 		tot.OpsDone += st.OpsDone
 		tot.OpsAborted += st.OpsAborted
+		tot.OpsOverBudget += st.OpsOverBudget
 		tot.OpsCompared += st.OpsCompared
 		tot.OverBudget += st.OverBudget
 		tot.ColdRuns += st.ColdRuns
@@ -280,6 +282,7 @@ func aggregateC11(o options, stats []c11Stats, wall time.Duration) map[string]in
 		"operations_by_kind":         tot.OpsByKind,
 		"operations_completed":       tot.OpsDone,
 		"operations_aborted":         tot.OpsAborted,
+		"operations_cut_off_at_yield_budget": tot.OpsOverBudget,
 		"operations_compared":        tot.OpsCompared,
 		"logical_steps_yields":       tot.Steps,
 		"context_switches":           tot.Switches,
